@@ -829,8 +829,25 @@ def gen_EV(seed, profile):
     r = sub(seed, "ops")
     fams = r.choice([["explicit_fixed"], ["explicit_fixed", "splitting"], ["explicit_adaptive"], ALL_FAMS, CHEAP_FAMS])
     dtype = r.choice(["float64"] * 9 + ["float32", "longdouble"]) if profile == "C08" else "float64"
+    rfar_ = sub(seed, "far_axis")
+    far = profile == "C08" and rfar_.random() < 0.06
+    if far:
+        # a time axis far from zero on which the SAME function crosses again and again, a few hundred to a few thousand time-resolution
+        # units apart (everything the library compares with a time - duplicate windows, probe offsets, root tolerances - meets |t| >> 1)
+        fams = ["explicit_fixed"] if rfar_.random() < 0.7 else ["explicit_adaptive"]
+        dtype = "float32" if rfar_.random() < 0.35 else "float64"
     scn, direction = base_scenario(seed, profile, fams, family="osc", dtype=dtype, max_steps=16, length=rnd(r, 1.0, 3.5, 3))
     s = scn["system"]
+    if far:
+        eps_ = 1.2e-7 if dtype == "float32" else 2.3e-16
+        mag = float(round(10 ** (rfar_.uniform(2.5, 3.5) if dtype == "float32" else rfar_.uniform(6.0, 9.0))))
+        gap = mag * (4 * eps_) ** 0.7 * rfar_.uniform(0.25, 0.9)          # time between two crossings of one function
+        s["t0"] = rfar_.choice([-1.0, 1.0]) * mag
+        s["tf"] = s["t0"] + direction * float("%.4g" % (gap * rfar_.uniform(4.0, 10.0)))
+        s["dt"] = float("%.4g" % (gap / rfar_.uniform(3.0, 6.0)))
+        kk_ = s["constants"].get("k", 1.0)
+        scn["problem"]["params"]["w"] = [float("%.5g" % (math.pi / gap / kk_ * rfar_.uniform(0.8, 1.2))) for _ in scn["problem"]["params"]["w"]]
+        scn["far_axis"] = True
     if gen_is_slow(s["method"]):
         s["rtol"], s["atol"] = 1e-4, 1e-6
     t0, tf = s["t0"], s["tf"]
